@@ -296,8 +296,11 @@ def intersect_masks(m1, m2):
         joint_mask = ma.mask_or(ma.getmask(m1), ma.getmask(m2))
 
         import dadi
-        m1 = dadi.Spectrum(m1, mask=joint_mask.copy())
-        m2 = dadi.Spectrum(m2, mask=joint_mask.copy())
+        # The joint mask alone decides what is masked: corners left unmasked
+        # in both inputs must stay unmasked (as they do when the masks are
+        # already identical).
+        m1 = dadi.Spectrum(m1, mask=joint_mask.copy(), mask_corners=False)
+        m2 = dadi.Spectrum(m2, mask=joint_mask.copy(), mask_corners=False)
     return m1,m2
 
 def trapz(yy, xx=None, dx=None, axis=-1):
